@@ -13,10 +13,9 @@ which are sound for any history):
     name (ttl > 0) and has not been superseded by a later I (ttl > 0) or ANY lookup of
     that name; before every P all names but one of each group sharing an A op are
     read with an ANY lookup at distinct instants;
-  * no instant (clock value or expiry) exceeds LIMIT = 2^62 - 1: the model driver prints
-    numbers through OCaml's native int (ocaml/vutil.ml: "every number in a case line fits in
-    an OCaml int"); the hook's clock is a u64 of nanoseconds.  So a record with TTL 2^32-1
-    can only be inserted during the first ~3.1e17 ns; later such a TTL is replaced by 300.
+  * the hook's clock is a u64 of nanoseconds: the clock stays at or below MAXNOW = 2^63 and
+    no expiry exceeds LIMIT = 2^64 - 1 (ocaml/drv_cache.ml prints instants with arbitrary
+    precision, so several TTL 2^32-1 lifetimes (4.29e18 ns each) fit in one history).
 """
 from . import tok
 
@@ -24,8 +23,8 @@ A, NS, MX, TXT, AAAA = tok.A, tok.NS, tok.MX, tok.TXT, tok.AAAA
 ANY = tok.ANY
 U32MAX = 2 ** 32 - 1
 S = 10 ** 9
-LIMIT = 2 ** 62 - 1            # every instant (clock, expiry) must fit an OCaml int: ocaml/vutil.ml string_of_n
-MAXNOW = LIMIT - 400 * S       # a TTL-300 insert is always possible; one u32::MAX lifetime (4.29e18 ns) fits
+LIMIT = 2 ** 64 - 1            # no expiry instant above this (the hook's clock is a u64 of ns)
+MAXNOW = 2 ** 63               # the clock stays below this; MAXNOW + 2^32 s < LIMIT, so any TTL can always be inserted
 
 NAMES = [tok.name("a."), tok.name("b."), tok.name("c.a."), tok.name("d.")]
 MISS_NAME = tok.name("e.")
@@ -45,10 +44,13 @@ DTS = [1, 1, 1, 2, 2, 1000, 1000, 499999999, 500000000, 999999998, 999999999, 10
 WITNESS = ("cache H 10 T~1|I~61.-:1:1:1:a16909060|T~1|I~61.-:15:1:2:x10,6d.-|T~1|I~61.-:1:1:100:a16909060|"
            "T~2500000000|P")
 
-# histories per tier.  Measured on the 16-core sandbox (see the report of the author): the
-# thorough counts keep ./check --tier thorough under 15 minutes and under ~8 GB (core.py keeps
-# every model and impl output line in memory and python parses each impl line once per oracle).
-COUNTS = {"quick": 2000, "thorough": 100000}
+# histories per tier.  core.py keeps every model and impl output line in memory (about 6.5 KB per
+# history each) and python parses every impl line once in the oracle.  Measured on the 16-core
+# sandbox while other builds were running (load average ~10): ./check C05 --tier thorough with
+# 100000 histories: 85 s wall, 1.5 GB peak RSS; ./check C15 --tier thorough with 300000: 9 min 23 s,
+# 4.1 GB (the concurrency supplement is 2 s of that).  200000 keeps the thorough check around
+# 3-6 minutes and 3 GB, well inside the 15 min / 8 GB budget.
+COUNTS = {"quick": 2000, "thorough": 200000}
 
 
 # --------------------------------------------------------------------------
